@@ -14,14 +14,14 @@ ID = 'C11'
 RULE = ('(a) exhaustive: every eligibility class-count vector (c_fixed, t_fixed, cx, tx, ct, ctx, x_fixed) with 1..4 geos (quick) / '
         '1..6 (thorough) x settings (treatment range x control range x geo-ratio tolerance; quick: a rotating sixth of the 180 '
         'settings per vector, thorough: all 180); the object is built on a small synthetic panel whose geo order is a drawn '
-        'permutation of the classes; (b) Hypothesis: vectors up to 9 geos with drawn ranges/tolerances and n_geos_max (count over the admitted geos), and vectors of 25-45 geos in a few classes checked against an exact polynomial (generating-function) count. '
+        'permutation of the classes; (b) Hypothesis: vectors up to 9 geos with drawn ranges/tolerances and n_geos_max (count over the admitted geos), vectors of 25-45 geos in a few classes checked against an exact polynomial (generating-function) count, and vectors (up to ~40 geos, mostly pinned) whose group sizes sit exactly on the geo-ratio boundary for tolerance (l-s)/s, always listed. '
         'Non-trivial = some setting of the case has count > 0 and >= 2 non-free classes are present; distinct by spec hash.')
 BUDGET = {'quick': 160, 'thorough': 4000}
 FLOOR = {'quick': 100, 'thorough': 800}
 ROUNDS = {'quick': 2, 'thorough': 3}
 EXHAUSTIVE = {'quick': 'all class-count vectors with <=4 geos, each with 30 of the 180 (ranges x tolerance) settings (rotating)',
               'thorough': 'all class-count vectors with <=6 geos x all 180 settings'}
-ASSUMPTIONS = ['geo-ratio bounds compared exactly (Fractions); the library compares floats, identical for the dyadic tolerances used']
+ASSUMPTIONS = ['geo-ratio bounds compared exactly (Fractions); the library compares floats: identical for dyadic tolerances; for tolerances such as 1/3 or 2/3 size pairs exactly on the boundary may be counted or not by the oracle, but count and generator listing must still agree']
 
 CLASSES = ['c_fixed', 't_fixed', 'cx', 'tx', 'ct', 'ctx', 'x_fixed']
 ROW = {'c_fixed': (1, 0, 0), 't_fixed': (0, 1, 0), 'cx': (1, 0, 1), 'tx': (0, 1, 1), 'ct': (1, 1, 0), 'ctx': (1, 1, 1), 'x_fixed': (0, 0, 1)}
@@ -58,7 +58,7 @@ def _spec(draw):
         return None
       a = draw(st.integers(1, 6))
       return [a, a + draw(st.integers(0, 5))]
-    tol = draw(st.sampled_from([None, 0.1, 0.25, 0.5, 1.0, 1.5, 2.0, 3.0, 7.0]))
+    tol = draw(st.sampled_from([None, 0.1, 0.25, 0.5, 1.0, 1.5, 2.0, 3.0, 7.0, 2.0 / 3, 1.0 / 3, 0.2]))
     sets.append([rng(), rng(), tol])
   return {'vector': v, 'perm_seed': draw(st.integers(0, 10 ** 6)), 'settings': sets, 'search': False,
           'n_geos_max': draw(st.sampled_from([None, None, 2, 3, 4, 5]))}
@@ -85,8 +85,36 @@ def _large(draw):
   return {'vector': v, 'perm_seed': draw(st.integers(0, 10 ** 6)), 'settings': sets, 'search': False, 'large': True}
 
 
+@st.composite
+def _boundary(draw):
+  """Sizes exactly on the geo-ratio boundary: s geos pinned to one group, l to the other, tolerance (l - s) / s, a few
+  loose geos; the space stays small enough to list whatever the number of geos (up to ~40)."""
+  b = draw(st.integers(1, 13))
+  a = b + draw(st.integers(1, max(1, min(2 * b, 16 - b))))
+  m = draw(st.integers(1, max(1, 36 // (a + b))))
+  s_, l_ = b * m, a * m
+  tol = (a - b) / b
+  v = [0] * 7
+  small_is_treatment = draw(st.booleans())
+  v[1 if small_is_treatment else 0] = s_
+  v[0 if small_is_treatment else 1] = l_
+  for _ in range(draw(st.integers(0, 3))):
+    v[draw(st.sampled_from([2, 3, 4, 5, 6]))] += 1
+  for _ in range(draw(st.integers(0, 2))):              # loosen pinned geos
+    i = draw(st.sampled_from([0, 1]))
+    if v[i] > 1:
+      v[i] -= 1
+      v[draw(st.sampled_from([4, 5, 2 if i == 0 else 3]))] += 1
+  sets = [[None, None, tol]]
+  if draw(st.booleans()):
+    sets.append([[s_, s_] if small_is_treatment else [l_, l_], [l_, l_] if small_is_treatment else [s_, s_], tol])
+  sets.append([None, None, draw(st.sampled_from([tol, 2.0 / 3, 1.0 / 3, 2.0 / 7, 1.0 / 11, 2.0 / 13, 0.2, 0.6]))])
+  return {'vector': v, 'perm_seed': draw(st.integers(0, 10 ** 6)), 'settings': sets, 'search': draw(st.booleans()),
+          'large': sum(v) > 9, 'list_all': True}
+
+
 def strategy(tier):
-  return st.one_of(_spec(), _spec(), _large())
+  return st.one_of(_spec(), _spec(), _large(), _boundary())
 
 
 def build(spec):
@@ -155,14 +183,20 @@ def histogram(cls_of):
   return hist
 
 
-def passes(nt, nc, trng, crng, tol):
+def passes(nt, nc, trng, crng, tol, band=False):
+  """Exact (Fraction) admissibility of a size pair. Sizes sitting on the ratio boundary of a tolerance for which 1 + tol is
+  not computed exactly in floats (1/3, 2/3, 2/13 ...) may go either way in the library: `band` says how to count them."""
   if trng is not None and not trng[0] <= nt <= trng[1]:
     return False
   if crng is not None and not crng[0] <= nc <= crng[1]:
     return False
   if tol is not None:
     hi = 1 + Fraction(tol)
-    if not 1 / hi <= Fraction(nc, nt) <= hi:
+    r = Fraction(nc, nt)
+    d = hi.denominator
+    if (d & (d - 1) or d > 2 ** 20) and (abs(r - hi) <= Fraction(1, 10 ** 9) * hi or abs(r - 1 / hi) <= Fraction(1, 10 ** 9) / hi):
+      return band
+    if not 1 / hi <= r <= hi:
       return False
   return True
 
@@ -194,6 +228,8 @@ def run(spec):
     if spec.get('n_geos_max'):
       kw['n_geos_max'] = spec['n_geos_max']
     want = sum(k for (nt, nc), k in hist.items() if passes(nt, nc, trng, crng, tol))
+    want_hi = sum(k for (nt, nc), k in hist.items() if passes(nt, nc, trng, crng, tol, True))
+    h_used = hist
     try:
       data = tbrmmdata.TBRMMData(df.copy(), 'response', geoeligibility.GeoEligibility(el.copy()))
       mm = tbrmatchedmarkets.TBRMatchedMarkets(data, tbrmmdesignparameters.TBRMMDesignParameters(**kw))
@@ -202,6 +238,8 @@ def run(spec):
         adm = {str(g) for g in mm.geos_within_constraints}
         hist_c = histogram({g: c for g, c in cls_of.items() if g in adm})
         want = sum(k for (nt, nc), k in hist_c.items() if passes(nt, nc, trng, crng, tol))
+        want_hi = sum(k for (nt, nc), k in hist_c.items() if passes(nt, nc, trng, crng, tol, True))
+        h_used = hist_c
         cls.append('n_geos_max')
       got = mm.count_max_designs()
     except ValueError as e:
@@ -214,12 +252,19 @@ def run(spec):
     except Exception as e:  # pylint: disable=broad-except
       viol.append((core.crash_kind('C11', e), dict(det, exc=str(e)[:200])))
       continue
-    if got != want:
-      viol.append(('C11:count-differs-from-assignment-enumeration', dict(det, count_max_designs=int(got), enumerated=want)))
+    if want_hi != want:
+      cls.append('sizes-on-inexact-ratio-boundary')
+    allowed = {want}
+    if want_hi != want:
+      # each size pair on the boundary is counted as a whole or not at all
+      for k in [k for (a, b), k in h_used.items() if passes(a, b, trng, crng, tol, True) and not passes(a, b, trng, crng, tol)][:8]:
+        allowed |= {x + k for x in allowed}
+    if got not in allowed:
+      viol.append(('C11:count-differs-from-assignment-enumeration', dict(det, count_max_designs=int(got), enumerated=want, enumerated_with_boundary_sizes=want_hi)))
     if want > 0:
       any_positive = True
     # generator listing (all settings for small spaces, a rotating part otherwise)
-    if not large and (n <= 5 or si % 6 == spec['perm_seed'] % 6):
+    if (spec.get('list_all') and want_hi <= 4000) or (not large and (n <= 5 or si % 6 == spec['perm_seed'] % 6 or want_hi != want)):
       try:
         idx = list(mm.data.geo_index)
         pairs = []
@@ -234,7 +279,7 @@ def run(spec):
           viol.append(('C11:count-differs-from-generator-listing', dict(det, count_max_designs=int(got), listed=len(set(pairs)))))
         for T, C in set(pairs):
           ok = T and C and not (T & C) and all(ROW[cls_of[g]][1] for g in T) and all(ROW[cls_of[g]][0] for g in C) and \
-              all(g in T or g in C for g, c in cls_of.items() if c in ('c_fixed', 't_fixed', 'ct') and (not spec.get('n_geos_max') or g in adm)) and passes(len(T), len(C), trng, crng, tol)
+              all(g in T or g in C for g, c in cls_of.items() if c in ('c_fixed', 't_fixed', 'ct') and (not spec.get('n_geos_max') or g in adm)) and passes(len(T), len(C), trng, crng, tol, True)
           if not ok:
             viol.append(('C11:generator-lists-illegal-pair', dict(det, T=sorted(T), C=sorted(C))))
             break
@@ -242,7 +287,7 @@ def run(spec):
       except Exception as e:  # pylint: disable=broad-except
         viol.append((core.crash_kind('C11', e), dict(det, exc=str(e)[:200])))
     # upper bound on what the exhaustive search evaluates
-    if spec.get('search') and si == 0 and 0 < want <= 150:
+    if spec.get('search') and si == 0 and 0 < want_hi <= 150:
       try:
         found = mm.exhaustive_search()
         if len(found) > got:
